@@ -213,7 +213,12 @@ def run(check, repo: Repo) -> None:
             if n.kind == "branch" and kcfg.dominates(dev_branches[0], n.id) and n.id != dev_branches[0]:
                 if kcfg.exit in kcfg.reachable_from(n.id, avoid=vnodes):
                     t = kcfg.nodes[n.test]
-                    culprit = f"{'' if n.polarity else 'not '}{unparse(t.expr)}"
+                    params_ = {a.arg for a in ckv.args.args}
+                    shape = ast.parse(unparse(t.expr), mode="eval").body
+                    for x in ast.walk(shape):
+                        if isinstance(x, ast.Name) and x.id not in params_ and x.id not in ("str", "int", "float", "isinstance", "len"):
+                            x.id = "·"  # the key must not depend on how a local is spelled
+                    culprit = f"{'' if n.polarity else 'not '}{unparse(shape)}"
                     break
         check.violated("C19-R4", f"check_key_val[key == 'device']: return reachable without validate_device via `{culprit}`",
                        f"on the branch `{culprit}` a device request is accepted without validate_device: "
